@@ -2,6 +2,7 @@ import GdcVerif.Model.JpegLsScanL
 import GdcVerif.Lemmas.JpegLsScanStep
 import GdcVerif.Lemmas.JpegLsRunCtx
 import GdcVerif.Lemmas.Lockstep
+import GdcVerif.Lemmas.GolombFit
 /-!
   Lock-step composition for the JPEG-LS scan model `Model/JpegLsScanL.lean`:
   per-step agreement of regular pixels and run segments (from `regular_roundtrip`,
@@ -45,8 +46,8 @@ theorem encRegular_spec (P : Nat) (N : Int) (h : Admissible P N) (cs : Array Con
     (hsz : cs.size = 365) (hidx : 0 ≤ ApplySign qs (BitwiseSign qs) ∧ ApplySign qs (BitwiseSign qs) ≤ 364)
     (hxs : SampOk ((2 : Int) ^ P - 1) xs) :
     ∃ ws cs' rec, JpegLsScan.encRegular (traits P N) cs qs a b c xs = .ok (ws, cs', rec) ∧ cs'.size = 365 ∧
-      SClose N rec xs ∧ SampOk ((2 : Int) ^ P - 1) rec := by
-  obtain ⟨hM, hNear, _⟩ := near_params_wf P N h
+      SClose N rec xs ∧ SampOk ((2 : Int) ^ P - 1) rec ∧ WritesFit ws := by
+  obtain ⟨hM, hNear, _, _, ⟨q0, hQ0, hq01, hq0P, _, _⟩, _, hL0, _, _⟩ := near_params_wf P N h
   unfold JpegLsScan.encRegular
   dsimp only
   have hget : ∃ ctx, JpegLsScan.getCtx cs (ApplySign qs (BitwiseSign qs)) = .ok ctx := by
@@ -78,7 +79,12 @@ theorem encRegular_spec (P : Nat) (N : Int) (h : Admissible P N) (cs : Array Con
   rw [← he]
   have hrange := hb.2.2
   rw [hmul (err P N pxv xs s) (by omega)]
-  exact ⟨hb.1, hb.2.1⟩
+  refine ⟨hb.1, hb.2.1, ?_⟩
+  have hk := JpegLsScan.golombParam_range ctx 17 0 (by omega) (by omega)
+  have hcorr := JpegLsScan.errorCorrection_cases ctx (JpegLsScan.golombParam ctx 17 0) (traits P N).Near
+  have hfit := near_mapped_fits P N h pxv xs s hpx hxs hs _ hcorr.1
+  exact fit_encodeWrites _ _ _ _ ⟨hk.1, by omega⟩ (by rw [hQ0]; have := h.1; omega)
+    (by rw [hL0, hQ0]; have := h.1; constructor <;> omega) hfit.1
 
 /-- all components of a regular-mode pixel: encoder succeeds, reconstruction within NEAR and in range,
     decoder reads the same pixel and context table back -/
@@ -88,19 +94,19 @@ theorem regs_roundtrip (P : Nat) (N : Int) (h : Admissible P N) :
       (∀ x ∈ xi, SampOk ((2 : Int) ^ P - 1) x) →
       ∃ ws cs' rec, encRegs (traits P N) q xi cs = .ok (ws, cs', rec) ∧ cs'.size = 365 ∧ PixClose N rec xi ∧
         (∀ v ∈ rec, SampOk ((2 : Int) ^ P - 1) v) ∧ rec.length = xi.length ∧
-        ∀ rest, decRegs (traits P N) q cs (writesBits ws ++ rest) = .ok (cs', rec, rest)
+        (∀ rest, decRegs (traits P N) q cs (writesBits ws ++ rest) = .ok (cs', rec, rest)) ∧ WritesFit ws
   | [], [], cs, _, hsz, _, _ =>
-    ⟨[], cs, [], rfl, hsz, AllRel.nil, by simp, rfl, fun rest => by simp [decRegs, writesBits]⟩
+    ⟨[], cs, [], rfl, hsz, AllRel.nil, by simp, rfl, fun rest => by simp [decRegs, writesBits], fit_nil⟩
   | [], _ :: _, _, hl, _, _, _ => by simp at hl
   | _ :: _, [], _, hl, _, _, _ => by simp at hl
   | (qs, a, b, c) :: qrest, x :: xrest, cs, hl, hsz, hidx, hx => by
-    obtain ⟨w1, cs1, r, he1, hsz1, hc1, hr1⟩ :=
+    obtain ⟨w1, cs1, r, he1, hsz1, hc1, hr1, hf1⟩ :=
       encRegular_spec P N h cs qs a b c x hsz (hidx (qs, a, b, c) (by simp)) (hx x (by simp))
     have hd1 := fun rest => JpegLsScan.regular_roundtrip P N h cs qs a b c x rest (hx x (by simp)) w1 cs1 r he1
-    obtain ⟨w2, cs2, rs, he2, hsz2, hc2, hr2, hlen2, hd2⟩ :=
+    obtain ⟨w2, cs2, rs, he2, hsz2, hc2, hr2, hlen2, hd2, hf2⟩ :=
       regs_roundtrip P N h qrest xrest cs1 (by simpa using hl) hsz1 (fun i hi => hidx i (by simp [hi]))
         (fun y hy => hx y (by simp [hy]))
-    refine ⟨w1 ++ w2, cs2, r :: rs, ?_, hsz2, AllRel.cons hc1 hc2, ?_, by simp [hlen2], ?_⟩
+    refine ⟨w1 ++ w2, cs2, r :: rs, ?_, hsz2, AllRel.cons hc1 hc2, ?_, by simp [hlen2], ?_, fit_append hf1 hf2⟩
     · simp only [encRegs, he1, he2]
     · intro v hv
       simp only [List.mem_cons] at hv
@@ -167,8 +173,8 @@ theorem interruption_sample (P : Nat) (N : Int) (h : Admissible P N) (idx : Int)
       SClose N (Traits.ComputeReconstructedSample (traits P N) px (s * Traits.ComputeErrorValue (traits P N) (s * (x - px)))) x ∧
       SampOk ((2 : Int) ^ P - 1)
         (Traits.ComputeReconstructedSample (traits P N) px (s * Traits.ComputeErrorValue (traits P N) (s * (x - px)))) ∧
-      ∀ rest, decodeRunInterruption (traits P N) idx ctx (writesBits ws ++ rest) =
-        .ok (Traits.ComputeErrorValue (traits P N) (s * (x - px)), ctx', rest) := by
+      (∀ rest, decodeRunInterruption (traits P N) idx ctx (writesBits ws ++ rest) =
+        .ok (Traits.ComputeErrorValue (traits P N) (s * (x - px)), ctx', rest)) ∧ WritesFit ws := by
   obtain ⟨hReset, hM, hNear, hR2, hR16⟩ := traits_run_facts P N h
   have hb := near_sample_bound P N h px x s hpx hx hs
   have hrange : ((traits P N).Range + 1) / 2 - (traits P N).Range ≤ Traits.ComputeErrorValue (traits P N) (s * (x - px)) ∧
@@ -180,12 +186,31 @@ theorem interruption_sample (P : Nat) (N : Int) (h : Admissible P N) (idx : Int)
     unfold Go.abs; split <;> omega
   obtain ⟨hi', hr'⟩ := encodeRunInterruption_inv (traits P N) idx ctx _ ws ctx' hidx hinv' (by rw [hReset]; decide) hne hmag henc
   rw [hReset] at hi'
-  refine ⟨ws, ctx', henc, hi', hr', hb.1, hb.2.1, ?_⟩
-  intro rest
-  obtain ⟨ws2, ctx2, henc2, hdec2⟩ := run_interruption_roundtrip_traits P N h idx ctx _ rest hidx hk hinv.1 hne hrange
-  rw [henc] at henc2
-  simp only [Except.ok.injEq, Prod.mk.injEq] at henc2
-  rw [henc2.1, henc2.2]; exact hdec2
+  refine ⟨ws, ctx', henc, hi', hr', hb.1, hb.2.1, ?_, ?_⟩
+  · intro rest
+    obtain ⟨ws2, ctx2, henc2, hdec2⟩ := run_interruption_roundtrip_traits P N h idx ctx _ rest hidx hk hinv.1 hne hrange
+    rw [henc] at henc2
+    simp only [Except.ok.injEq, Prod.mk.injEq] at henc2
+    rw [henc2.1, henc2.2]; exact hdec2
+  · -- the calls are those of EncodeMappedValue with a non-negative mapped value
+    obtain ⟨hq, hl⟩ := run_limit_ok P N h idx hidx
+    have henc' := henc
+    unfold encodeRunInterruption at henc'
+    rw [J?_eq idx hidx] at henc'
+    simp only [bind, Except.bind, Except.ok.injEq, Prod.mk.injEq] at henc'
+    rw [← henc'.1]
+    have ha0 : ∀ e : Int, e ≠ 0 → 1 ≤ Go.abs e := by intro e he; unfold Go.abs; split <;> omega
+    have ha : ∀ e : Int, 0 ≤ Go.abs e := by intro e; unfold Go.abs; split <;> omega
+    refine fit_encodeWrites _ _ _ _ ⟨getGolombCode_nonneg ctx, hk⟩ hq hl ?_
+    have := ha (Traits.ComputeErrorValue (traits P N) (s * (x - px)))
+    by_cases hmap : RunModeContext.ComputeMap ctx (Traits.ComputeErrorValue (traits P N) (s * (x - px))) (getGolombCode ctx) = true
+    · have := ha0 _ (computeMap_ne ctx _ _ hmap)
+      simp only [hmap, if_true]
+      rcases hinv.1 with h0 | h1 <;> rw [‹ctx.runInterruptionType = _›] <;> omega
+    · simp only [hmap, Bool.false_eq_true, if_false]
+      rcases hinv.1 with h0 | h1
+      · rw [h0]; omega
+      · have := ha0 _ (hne h1); rw [h1]; omega
 
 theorem sign_cases (n : Int) : Gen.JpegLsRun.Sign n = 1 ∨ Gen.JpegLsRun.Sign n = -1 := by
   unfold Gen.JpegLsRun.Sign; split <;> simp
@@ -198,22 +223,23 @@ theorem ints_roundtrip (P : Nat) (N : Int) (h : Admissible P N) (comps : Nat) (i
       ∃ ws ctx' rec, encInts (traits P N) idx left above xi ks ctx = .ok (ws, ctx', rec) ∧
         RunCtxInv ctx' 64 ∧ ctx'.runInterruptionType = 0 ∧ rec.length = ks.length ∧
         AllRel (SClose N) rec (ks.map (cmp xi)) ∧ (∀ v ∈ rec, SampOk ((2 : Int) ^ P - 1) v) ∧
-        ∀ rest, decInts (traits P N) idx left above ks ctx (writesBits ws ++ rest) = .ok (ctx', rec, rest)
+        (∀ rest, decInts (traits P N) idx left above ks ctx (writesBits ws ++ rest) = .ok (ctx', rec, rest)) ∧
+        WritesFit ws
   | [], ctx, _, hinv, hrit =>
-    ⟨[], ctx, [], rfl, hinv, hrit, rfl, AllRel.nil, by simp, fun rest => by simp [decInts, writesBits]⟩
+    ⟨[], ctx, [], rfl, hinv, hrit, rfl, AllRel.nil, by simp, fun rest => by simp [decInts, writesBits], fit_nil⟩
   | k :: ks, ctx, hk, hinv, hrit => by
     have hk0 : k < comps := hk k (by simp)
     have hsg := sign_cases (cmp above k - cmp left k)
     generalize hS : Gen.JpegLsRun.Sign (cmp above k - cmp left k) = sg at hsg
-    obtain ⟨w1, ctx1, he1, hi1, hr1, hc1, ho1, hd1⟩ :=
+    obtain ⟨w1, ctx1, he1, hi1, hr1, hc1, ho1, hd1, hf1⟩ :=
       interruption_sample P N h idx ctx (cmp above k) (cmp xi k) sg hidx hinv (cmp_ok ha k hk0) (cmp_ok hx k hk0) hsg
         (by intro h1; rw [hrit] at h1; exact absurd h1 (by decide))
-    obtain ⟨w2, ctx2, rs, he2, hi2, hr2, hlen2, hc2, ho2, hd2⟩ :=
+    obtain ⟨w2, ctx2, rs, he2, hi2, hr2, hlen2, hc2, ho2, hd2, hf2⟩ :=
       ints_roundtrip P N h comps idx left above xi hidx hl ha hx ks ctx1 (fun j hj => hk j (by simp [hj])) hi1
         (by rw [hr1]; exact hrit)
     have hcomm : ∀ e : Int, e * sg = sg * e := fun e => Int.mul_comm e sg
     refine ⟨w1 ++ w2, ctx2, Traits.ComputeReconstructedSample (traits P N) (cmp above k)
-        (Traits.ComputeErrorValue (traits P N) (sg * (cmp xi k - cmp above k)) * sg) :: rs, ?_, hi2, hr2, by simp [hlen2], ?_, ?_, ?_⟩
+        (Traits.ComputeErrorValue (traits P N) (sg * (cmp xi k - cmp above k)) * sg) :: rs, ?_, hi2, hr2, by simp [hlen2], ?_, ?_, ?_, fit_append hf1 hf2⟩
     · simp only [encInts, hS, he1, he2]
     · simp only [List.map_cons]
       refine AllRel.cons ?_ hc2
@@ -264,7 +290,7 @@ theorem int0_roundtrip (P : Nat) (N : Int) (h : Admissible P N) (idx ra rb xi : 
     (hout : Go.abs (xi - ra) > N) :
     ∃ ws run' r, encInt0 (traits P N) idx ra rb xi run = .ok (ws, run', r) ∧ StInv run' ∧ SClose N r xi ∧
       SampOk ((2 : Int) ^ P - 1) r ∧
-      ∀ rest, decInt0 (traits P N) idx ra rb run (writesBits ws ++ rest) = .ok (run', r, rest) := by
+      (∀ rest, decInt0 (traits P N) idx ra rb run (writesBits ws ++ rest) = .ok (run', r, rest)) ∧ WritesFit ws := by
   obtain ⟨_, hM, hNear, _, _⟩ := traits_run_facts P N h
   obtain ⟨_, hi0, hr0, hi1, hr1⟩ := hinv
   unfold SampOk at hra hrb hxi
@@ -274,7 +300,7 @@ theorem int0_roundtrip (P : Nat) (N : Int) (h : Admissible P N) (idx ra rb xi : 
   · simp only [hnear, if_true]
     have e1 : xi - ra = 1 * (xi - ra) := by omega
     rw [e1]
-    obtain ⟨ws, ctx', he, hi', hr', hc, ho, hd⟩ :=
+    obtain ⟨ws, ctx', he, hi', hr', hc, ho, hd, hfw⟩ :=
       interruption_sample P N h idx run.ctx1 ra xi 1 hidx hi1 hra hxi (Or.inl rfl)
         (fun _ => by
           have := cev_ne_zero P N h (xi - ra) (by omega) hout
@@ -282,7 +308,7 @@ theorem int0_roundtrip (P : Nat) (N : Int) (h : Admissible P N) (idx ra rb xi : 
     simp only [Int.one_mul] at hc ho hd ⊢ he
     refine ⟨ws, { runIndex := decRunIndex idx, ctx0 := run.ctx0, ctx1 := ctx' },
       Traits.ComputeReconstructedSample (traits P N) ra (Traits.ComputeErrorValue (traits P N) (xi - ra)),
-      by rw [he], ⟨dec_range idx hidx, hi0, hr0, hi', by rw [hr', hr1]⟩, hc, ho, ?_⟩
+      by rw [he], ⟨dec_range idx hidx, hi0, hr0, hi', by rw [hr', hr1]⟩, hc, ho, ?_, hfw⟩
     intro rest
     rw [hd rest]
   · simp only [hnear, if_false]
@@ -290,13 +316,13 @@ theorem int0_roundtrip (P : Nat) (N : Int) (h : Admissible P N) (idx ra rb xi : 
     generalize Gen.JpegLsRun.Sign (rb - ra) = sg at hsg
     have e1 : (xi - rb) * sg = sg * (xi - rb) := Int.mul_comm _ _
     rw [e1]
-    obtain ⟨ws, ctx', he, hi', hr', hc, ho, hd⟩ :=
+    obtain ⟨ws, ctx', he, hi', hr', hc, ho, hd, hfw⟩ :=
       interruption_sample P N h idx run.ctx0 rb xi sg hidx hi0 hrb hxi hsg
         (by intro h1; rw [hr0] at h1; exact absurd h1 (by decide))
     have hcomm : ∀ e : Int, e * sg = sg * e := fun e => Int.mul_comm e sg
     refine ⟨ws, { runIndex := decRunIndex idx, ctx0 := ctx', ctx1 := run.ctx1 },
       Traits.ComputeReconstructedSample (traits P N) rb (Traits.ComputeErrorValue (traits P N) (sg * (xi - rb)) * sg),
-      by rw [he], ⟨dec_range idx hidx, hi', by rw [hr', hr0], hi1, hr1⟩, ?_, ?_, ?_⟩
+      by rw [he], ⟨dec_range idx hidx, hi', by rw [hr', hr0], hi1, hr1⟩, ?_, ?_, ?_, hfw⟩
     · rw [hcomm]; exact hc
     · rw [hcomm]; exact ho
     · intro rest
@@ -414,18 +440,19 @@ theorem step_regular (P : Nat) (N : Int) (h : Admissible P N) (comps : Nat) (lin
     (hq : ¬ ((ids (traits P N) s (List.range comps)).all (fun i => i.1 == 0)) = true) :
     ∃ ws s', encStep (traits P N) (List.range comps) s (xi :: rest) = .ok (ws, s', rest) ∧
       LInv comps ((2 : Int) ^ P - 1) N line s' rest ∧
-      ∀ tl, decStep (traits P N) (List.range comps) s (xi :: rest).length (writesBits ws ++ tl) = .ok (s', rest.length, tl) := by
+      (∀ tl, decStep (traits P N) (List.range comps) s (xi :: rest).length (writesBits ws ++ tl) = .ok (s', rest.length, tl)) ∧
+      WritesFit ws := by
   obtain ⟨hS, hline, hle, htodo, hclose⟩ := hinv
   have hxi_mem : xi ∈ line := by
     have : xi ∈ line.drop s.done.length := by rw [← htodo]; simp
     exact List.mem_of_mem_drop this
   have hxi := hline xi hxi_mem
-  obtain ⟨ws, cs', rec, he, hsz, hc, hr, hlen, hd⟩ :=
+  obtain ⟨ws, cs', rec, he, hsz, hc, hr, hlen, hd, hfw⟩ :=
     regs_roundtrip P N h (ids (traits P N) s (List.range comps)) xi s.ctxs
       (by rw [ids_length, List.length_range, hxi.1]) hS.2.2.2.1 (ids_idx_ok _ _ _) hxi.2
   have hsplit := take_drop_split line s.done.length [xi] rest (by rw [← htodo]; rfl) hle
   simp only [List.length_singleton] at hsplit
-  refine ⟨ws, { s with done := rec :: s.done, ctxs := cs' }, ?_, ?_, ?_⟩
+  refine ⟨ws, { s with done := rec :: s.done, ctxs := cs' }, ?_, ?_, ?_, hfw⟩
   · simp only [encStep, hq, Bool.false_eq_true, if_false, he]
   · refine ⟨⟨hS.1, ?_, hS.2.2.1, hsz, hS.2.2.2.2⟩, hline, ?_, ?_, ?_⟩
     · intro p hp
@@ -473,9 +500,9 @@ theorem mem_takeWhile_true {α : Type} (f : α → Bool) : ∀ (l : List α) (a 
 theorem runlength_rt (idx rl remaining : Int) (hidx : 0 ≤ idx ∧ idx ≤ 31) (hrl : 0 ≤ rl ∧ rl ≤ remaining)
     (hrem : 1 ≤ remaining) :
     ∃ idx' ws, encodeRunLength idx rl (rl == remaining) = .ok (idx', ws) ∧ (0 ≤ idx' ∧ idx' ≤ 31) ∧
-      ∀ tl, decodeRunLength (writesBits ws ++ tl) idx remaining = .ok (rl, idx', tl) := by
+      (∀ tl, decodeRunLength (writesBits ws ++ tl) idx remaining = .ok (rl, idx', tl)) ∧ WritesFit ws := by
   obtain ⟨idx', ws, he, hi, _⟩ := runlength_roundtrip' idx rl remaining [] hidx hrl hrem
-  refine ⟨idx', ws, he, hi, fun tl => ?_⟩
+  refine ⟨idx', ws, he, hi, fun tl => ?_, fit_encodeRunLength idx rl _ hidx hrl.1 idx' ws he⟩
   obtain ⟨idx2, ws2, he2, _, hd2⟩ := runlength_roundtrip' idx rl remaining tl hidx hrl hrem
   rw [he] at he2
   simp only [Except.ok.injEq, Prod.mk.injEq] at he2
